@@ -45,12 +45,50 @@ def match_known(fp, known):
   return None
 
 
-def run_case(machine, case):
-  """Runs one case; harness exceptions are classified apart from violations."""
+def _run_here(machine, case):
   try:
     return machine.run(case)
   except Exception:  # pylint: disable=broad-except
     return {'harness_error': traceback.format_exc()}
+
+
+def run_case(machine, case):
+  """Runs one case in a forked child of this (warmed, otherwise idle) lane.
+
+  Every run therefore starts from the same process state: nothing a previous
+  run left behind in fiddle's module globals (caches, counters, thread-local
+  flags, a stuck build guard) can influence it, so a run is a pure function of
+  (case, code) and replays identically in a fresh interpreter.  Harness
+  exceptions are classified apart from violations.
+  """
+  r, w = os.pipe()
+  pid = os.fork()
+  if pid == 0:
+    code = 0
+    try:
+      os.close(r)
+      res = _run_here(machine, case)
+      data = json.dumps(res, default=repr).encode()
+      with os.fdopen(w, 'wb') as f:
+        f.write(data)
+    except BaseException:  # pylint: disable=broad-except
+      code = 3
+    finally:
+      os._exit(code)
+  os.close(w)
+  chunks = []
+  with os.fdopen(r, 'rb') as f:
+    while True:
+      b = f.read(1 << 16)
+      if not b:
+        break
+      chunks.append(b)
+  _, status = os.waitpid(pid, 0)
+  data = b''.join(chunks)
+  if status != 0 or not data:
+    return {'harness_error': f'run child exited with status {status} '
+                             f'({len(data)} bytes of output)'}
+  return json.loads(data)
 
 
 def run_seeds(job):
@@ -119,8 +157,13 @@ def run_seeds(job):
         r = run_case(machine, c)
         return any(x['fp'] == fp for x in r.get('violations', []))
 
+      start = case
+      if hasattr(machine, 'pin'):
+        pinned = machine.pin(case, res)
+        if same(pinned):
+          start = pinned
       small, execs = shrink_lib.shrink(
-          case, same, machine.shrink_candidates,
+          start, same, machine.shrink_candidates,
           budget=job.get('shrink_budget', 300))
       agg['shrink_execs'] += execs
       r2 = run_case(machine, small)
